@@ -697,9 +697,12 @@ impl NotificationProtocol {
             // outbound substream for previous connection still pending, reject inbound substream
             // and wait for the outbound substream state to conclude as either succeeded or failed
             // before accepting any inbound substreams.
+            //
+            // (a remembered substream that the transport has already reported as failed is no longer in
+            // `pending_outbound`: nothing will ever conclude it, so it must not block the peer)
             PeerState::Closed {
                 pending_open: Some(substream_id),
-            } => {
+            } if self.pending_outbound.contains_key(&substream_id) => {
                 tracing::debug!(
                     target: LOG_TARGET,
                     ?peer,
@@ -713,7 +716,7 @@ impl NotificationProtocol {
                 };
             }
             // the peer state is closed so this is a fresh inbound substream.
-            PeerState::Closed { pending_open: None } => {
+            PeerState::Closed { .. } => {
                 self.negotiation.read_handshake(peer, substream);
 
                 context.state = PeerState::Validating {
@@ -980,9 +983,13 @@ impl NotificationProtocol {
         match context.state {
             // protocol can only request a new outbound substream to be opened if the state is
             // `Closed` other states imply that it's already open
+            //
+            // only a substream that is still pending at the transport can be reused: one whose failure was
+            // already reported is not in `pending_outbound` any more and a request waiting for it would
+            // never be answered
             PeerState::Closed {
                 pending_open: Some(substream_id),
-            } => {
+            } if self.pending_outbound.contains_key(&substream_id) => {
                 tracing::trace!(
                     target: LOG_TARGET,
                     ?peer,
